@@ -150,7 +150,7 @@ def explore(ctx):
             cases.append(Case('i%d-B%d' % (i, sp), STAR, stages, lines[sp:], {'B'}))
         groups.append((start, len(perms), splits, st, ints_only, n, abs_sums(rows, [e[1] for _h, e in keys])))
     results = run_cases(cases, compare=compare_with_pct)
-    known_lines, known_classes = replay_known('C14')
+    known_lines, known_classes = [], ctx.get('known_classes', set())
     nontrivial = set()
     perm_checked = merge_checked = 0
     for start, nperm, splits, st, ints_only, n, sums in groups:
